@@ -700,6 +700,53 @@ def backlog_cases(ctx, n: int) -> list[dict]:
     return cases
 
 
+def backlog_missing_cases(ctx, n: int) -> list[dict]:
+    """Staggered start where the SKIPPED samples (older than the first common timestamp) and the samples of the
+    synchronised timestamp differ in missing-ness (None/NaN/+-inf vs a value, both directions), with and without
+    nones_are_zeros (per build and per stream): the sample emitted for a timestamp must be None exactly when an input
+    needed FOR THAT TIMESTAMP is missing — what was skipped must not matter.  Fixed grid + random cases."""
+    cases = []
+    encs = [None, "nan", "inf", "-inf"]
+    for skipped, current in [(e, "5") for e in encs] + [("5", e) for e in encs] + [("3", "5"), (None, "nan")]:
+        for z, zids in ((False, []), (True, []), (False, [1]), (True, [1])):
+            for s, lagging in (("#1 + #2", 1), ("#2 - #1", 1), ("#1 * #2", 2)):
+                other = 2 if lagging == 1 else 1
+                rounds = [{"ts": 2, "env": {str(lagging): current, str(other): "7"}},
+                          {"ts": 3, "env": {str(lagging): "4", str(other): skipped}},
+                          {"ts": 4, "env": {str(lagging): skipped, str(other): "1"}}]
+                cases.append({"kind": "string", "s": s, "z": z, "zids": zids, "rounds": rounds,
+                              "backlog": {str(lagging): [[0, skipped], [1, "9"]] if z else [[1, skipped]]}})
+    for i in range(n):
+        rng = ctx.subrng("backlog-missing", i)
+        k = rng.choice([2, 3, 3, 4])
+        ids = rng.sample([1, 2, 3, 5, 7, 12], k)
+        shape = rng.choice(list(tree_shapes(k - 1)))
+        ops = [rng.choice("+-*") for _ in range(k - 1)]
+        s = shape_to_string(shape, ops, [str(x) for x in ids], rng.random() < 0.3)
+        start = rng.randint(3, 6)
+        depth = rng.randint(1, 3)
+        order = ids[:]
+        rng.shuffle(order)
+        lag = order[:rng.randint(1, k - 1)]
+
+        def val(stream: int, ts: int, p: float) -> Any:
+            if rng.random() < p:
+                return rng.choice(encs)
+            return rat(Fraction((ids.index(stream) + 1) * 16 + ts))
+
+        rounds = [{"ts": t, "env": {str(x): val(x, t, 0.2) for x in ids}} for t in range(start, start + rng.randint(2, 4))]
+        backlog = {}
+        for x in lag:
+            items = [[t, val(x, t, 0.4)] for t in range(start - depth, start)]
+            # the oldest skipped sample and the first synchronised one differ in missing-ness
+            if inp_missing(items[0][1]) == inp_missing(rounds[0]["env"][str(x)]):
+                items[0][1] = rat(Fraction(99)) if inp_missing(items[0][1]) else rng.choice(encs)
+            backlog[str(x)] = items
+        zids = [x for x in ids if rng.random() < 0.4] if rng.random() < 0.4 else []
+        cases.append({"kind": "string", "s": s, "z": rng.random() < 0.4, "zids": zids, "rounds": rounds, "backlog": backlog})
+    return cases
+
+
 # ======================================================================= the real code
 def _imports():
     import frequenz.sdk.microgrid  # noqa: F401  (breaks an import cycle of the formula_engine package)
